@@ -293,7 +293,7 @@ theorem firstOther_sound (all : List (Str × List Str)) (current n c : Str)
 
 /-! ### non-vacuity -/
 example : findCrateName [s%"home", s%"op-proxy", s%"src", s%"android.rs"] = some s%"op_proxy" := by decide
-example : outputFileName .swift s%"my_crate" = s%"MyCrate.swift" := by decide
-example : outputFileName .kotlin s%"my_crate" = s%"my_crate.kt" := by decide
+example : outputFileName .ascii .swift s%"my_crate" = s%"MyCrate.swift" := by decide
+example : outputFileName .ascii .kotlin s%"my_crate" = s%"my_crate.kt" := by decide
 
 end TsV.C14
